@@ -60,6 +60,7 @@ structure State where
   saved : List (Nat × Kind)          -- cache.saved_objects
   trace : List Event
   lk : Links
+  refs : List (List Nat) := []       -- refs[o] = the objects the row of o refers to NOW (reference attributes with columns)
   deriving DecidableEq, Repr, Inhabited
 
 /-- what a hook body may do -/
@@ -71,6 +72,9 @@ inductive HOp
   | unlink (a b : Nat)               -- a.coll.remove(b)
   | linkNewOwner (b : Nat)           -- the object created last owns the link: `X(coll=[b])` (creation and link are two operations)
   | linkNewItem (a : Nat)            -- a.coll.add(the object created last)
+  | setRef (i g : Nat)               -- i.ref = g: an attribute assignment of i whose value is the object g
+  | refNewTo (g : Nat)               -- the object created last refers to g: `X(ref=g)` (creation and reference are two operations)
+  | refToNew (i : Nat)               -- i.ref = the object created last
   | query                            -- a read THROUGH the database (select, raw SQL): `prepare_connection_for_query_execution`
                                      -- flushes first unless flush is disabled (it is, inside before_* hooks)
   deriving DecidableEq, Repr, Inhabited
@@ -119,24 +123,42 @@ def applyLink (s : State) (a b : Nat) (add : Bool) : Except Err State :=
       .ok { s with modified := true, lk := { lk with view := lk.view.filter (· != p), pendAdd := lk.pendAdd.filter (· != p) } }
     else .ok { s with modified := true, lk := { lk with view := lk.view.filter (· != p), pendRem := lk.pendRem ++ [p] } }
 
+def State.refsOf (s : State) (o : Nat) : List Nat := (s.refs[o]?).getD []
+
+/-- `refs[o] = l` (the list is padded when o is new) -/
+def State.setRefs (s : State) (o : Nat) (l : List Nat) : State :=
+  { s with refs := (s.refs ++ List.replicate (o + 1 - s.refs.length) []).set o l }
+
+/-- `obj.attr = value`: the status logic of `Attribute.__set__` -/
+def applyModify (s : State) (o : Nat) : Except Err State :=
+  match s.objs[o]? with
+  | none => .error (.hookRaised o)
+  | some ob =>
+    match ob.status with
+    | .created | .modified => .ok (s.setObj o { ob with dirty := ob.dirty + 1 })       -- wbits None / already 'modified': no queue change
+    | .loaded | .inserted | .updated =>
+      .ok { (s.setObj o ⟨.modified, ob.dirty + 1⟩) with queue := s.queue ++ [some o], modified := true }
+    | .markedToDelete | .deleted => .error (.hookRaised o)                              -- throw_object_was_deleted
+
 /-- one operation of a hook body (the status logic of `Attribute.__set__` / `Entity.__init__`) -/
 def applyOp (s : State) : HOp → Except Err State
   | .read _ => .ok s
   | .create =>
     .ok { s with objs := s.objs ++ [⟨.created, 1⟩], queue := s.queue ++ [some s.objs.length], modified := true }
-  | .modify o =>
-    match s.objs[o]? with
-    | none => .error (.hookRaised o)
-    | some ob =>
-      match ob.status with
-      | .created | .modified => .ok (s.setObj o { ob with dirty := ob.dirty + 1 })       -- wbits None / already 'modified': no queue change
-      | .loaded | .inserted | .updated =>
-        .ok { (s.setObj o ⟨.modified, ob.dirty + 1⟩) with queue := s.queue ++ [some o], modified := true }
-      | .markedToDelete | .deleted => .error (.hookRaised o)                              -- throw_object_was_deleted
+  | .modify o => applyModify s o
   | .link a b => applyLink s a b true
   | .unlink a b => applyLink s a b false
   | .linkNewOwner b => applyLink s (s.objs.length - 1) b true
   | .linkNewItem a => applyLink s a (s.objs.length - 1) true
+  | .setRef i g =>
+    match applyModify s i with
+    | .ok s' => .ok (s'.setRefs i [g])
+    | .error e => .error e
+  | .refNewTo g => .ok (s.setRefs (s.objs.length - 1) [g])
+  | .refToNew i =>
+    match applyModify s i with
+    | .ok s' => .ok (s'.setRefs i [s.objs.length - 1])
+    | .error e => .error e
   | .query => .ok s                   -- inside `cache.flush_disabled()` (before_* hooks; `applyOpA` is the after_* reading)
 
 def runOps : List HOp → State → Except Err State
@@ -342,5 +364,23 @@ def entityFlush (H : Hooks) (princ : State → Nat → List Nat) (saveList : Sta
       match saveAll l s1 with
       | .error e => .error e
       | .ok s2 => afterPhase H { s2 with queue := clearSlots s2.queue l }
+
+/-! ### obj.flush() with the references as state
+
+  `_save_principal_objects_`: before obj is written, every NEW object a reference attribute of obj holds is written first, recursively
+  (post-order).  `entityFlushRefs` is `entityFlush` with both parameters read from the state: the scan of the before-hooks loop looks
+  at the references AFTER the hook of the object has run (the hook may have created an object and assigned it). -/
+
+def saveDfs (s : State) : Nat → List Nat → Nat → List Nat
+  | 0, acc, _ => acc
+  | f + 1, acc, o =>
+    if acc.contains o then acc else
+    -- `_save_principal_objects_` runs for 'created' and 'modified' objects only
+    let acc' := if s.kindAt o = some .delete then acc
+                else (s.refsOf o).foldl (fun a p => if s.kindAt p = some .insert then saveDfs s f a p else a) acc
+    if acc'.contains o then acc' else acc' ++ [o]
+
+def entityFlushRefs (H : Hooks) (bfuel : Nat) (s : State) (o : Nat) : Except Err State :=
+  entityFlush H (fun st p => st.refsOf p) (fun st p => saveDfs st (st.objs.length + 1) [] p) bfuel s o
 
 end PonyVerif.Model.Hooks
